@@ -427,7 +427,7 @@ def fam_phases(E, repeats=2):
 
 FAMILIES.append(
     Family('phases', fam_phases,
-           quick=dict(), thorough=dict(repeats=3),
+           quick=dict(repeats=1), thorough=dict(repeats=3),
            reach=['later-comparison-equals-one-of-an-abandoned-scope',
                   'later-comparison-equals-one-of-a-cancelled-waiter'],
            nonrepro='inconclusive',
@@ -480,3 +480,64 @@ FAMILIES.append(
                   'dates that doubles cannot tell apart), heap vs SortedDict backend'))
 QUICK_O_FAMILIES.append('huge_dates')
 THOROUGH_O_FAMILIES.append('huge_dates')
+
+
+def fam_after_abort(E):
+    """the same program is run before and after an *unrelated* simulation that is aborted by an
+    exception while waits on dates are still pending (and after one that ends normally): nothing a
+    finished or aborted simulation leaves behind in the thread may influence the next one.  The
+    dates of the unrelated simulation are free, so they may coincide with those of the program"""
+    d = [E.int('d%d' % i, 0, 12) for i in range(2)]
+    x = E.int('x', 0, 12)
+    f = E.int('f', 0, 12)
+    kind = E.pick('kind', 3)      # what the unrelated simulation waits for
+
+    def program(note):
+        log = Log(note=note)
+
+        def waiter(i):
+            async def run():
+                await (time >= d[i])
+                log('w%d' % i, 'after')
+                await (time == d[i] + 3)
+                log('w%d' % i, 'moment')
+                await (time + d[1 - i])
+                log('w%d' % i, 'delay')
+            return run
+
+        out = simulate(waiter(0)(), waiter(1)(), log=log, probe=Probe(check_fifo=True))
+        return log.events, out
+
+    def unrelated(fails):
+        async def pending():
+            await ((time >= x) if kind == 0 else ((time == x) if kind == 1 else (time + x)))
+            await (time + 1)
+
+        async def failing():
+            await (time + f)
+            if fails:
+                raise UserErr('unrelated simulation aborted')
+
+        return simulate(pending(), failing(), log=Log(note=False))
+
+    t1, out1 = program(True)
+    E.prove(out1.exc is None, 'run-ends-normally', out1.exc)
+    o = unrelated(False)
+    E.prove(o.exc is None, 'run-ends-normally', o.exc)
+    t2, out2 = program(False)
+    same_trace(E, t1, t2, 'same-trace-after-an-unrelated-simulation')
+    o = unrelated(True)
+    E.prove(isinstance(o.exc, UserErr), 'unrelated-simulation-ends-with-its-own-exception', o.exc)
+    E.reach_if(AND(LT(f, x), OR(EQ(x, d[0]), EQ(x, d[1]))),
+               'aborted-with-a-pending-wait-on-a-date-of-the-program')
+    t3, out3 = program(False)
+    same_trace(E, t1, t3, 'same-trace-after-an-unrelated-aborted-simulation')
+    E.prove(out3.exc is None, 'run-ends-normally', out3.exc)
+
+
+FAMILIES.append(
+    Family('after_abort', fam_after_abort, quick=dict(), thorough=dict(),
+           reach=['aborted-with-a-pending-wait-on-a-date-of-the-program'], nonrepro='inconclusive',
+           bounds='two waiters (time >= d, time == d + 3, delay) run three times in one thread, '
+                  'with an unrelated simulation in between that ends normally / is aborted at f '
+                  'while waiting for time >= x, time == x or time + x; all dates in [0,12]'))
